@@ -100,7 +100,7 @@ def run(run, thorough):
         o = res['steps'][0]
         run.nontriv(('put', tuple(sorted(a['kind'] for a in meta['args'])), tuple(outs), meta['mode'], o['exit']))
         monitors(run, scn, res, jobs_put, jobs_skip)
-    engine.run_monitors(run, 'put-monitor', jobs_put, 'the put-discipline monitor (Coq) rejects the implementation trace', 'put-discipline')
+    engine.run_monitors(run, 'put-monitor', jobs_put, 'the put-discipline monitor (Coq) rejects the implementation trace', 'put-discipline', silent=True)
     engine.run_monitors(run, 'skip-monitor', jobs_skip, 'the untouched-arguments monitor (Coq, C01) rejects the implementation trace: a mutation for '
                         'a dot entry, a nonexistent path or a declined argument', 'mutation-for-skipped-argument')
     # the known finding: '..' after a symlinked directory
@@ -141,4 +141,4 @@ def replay(run, payload):
     jp, js = [], []
     monitors(run, scn, res, jp, js)
     engine.run_monitors(run, 'put-monitor', jp, 'put-discipline monitor rejects', 'put-discipline')
-    engine.run_monitors(run, 'skip-monitor', js, 'untouched-arguments monitor rejects', 'mutation-for-skipped-argument')
+    engine.run_monitors(run, 'skip-monitor', js, 'untouched-arguments monitor rejects', 'mutation-for-skipped-argument', silent=True)
